@@ -550,6 +550,53 @@ def r4_single(ctx):
                      '%%option %s (%s): functions removed %s, added %s; expected exactly {%s} removed' % (o, be, sorted(gone), sorted(new), fn), variant=v.describe())
     return n
 
+VALUE_OPTIONS = [
+    # (name, %option text or CLI flags, regex that must match the generated code with comments removed, what it means)
+    ('bufsize',     ['bufsize=12345'], [], r'\b12345\b', 'the buffer size constant'),
+    ('yylmax',      ['yylmax=2345', 'array'], [], r'\byytext\s*\[\s*2345\s*\]', 'the size of the %array yytext'),
+    ('yydecl',      ['yydecl="int verif_lex(void)"'], [], r'\bint verif_lex\(void\)', 'the declaration of the scanning routine'),
+    ('yyterminate', ['yyterminate="return 77"'], [], r'return 77', 'what yyterminate() expands to'),
+    ('pre-action',  ['pre-action="verif_pre();"'], [], r'\bverif_pre\(\);', 'code run before every action'),
+    ('post-action', ['post-action="verif_post(); break;"'], [], r'\bverif_post\(\); break;', 'code run after every action'),
+    ('user-init',   ['user-init="verif_init();"'], [], r'\bverif_init\(\);', 'code run on the first call'),
+    ('extra-type',  ['reentrant', 'extra-type="struct verif_extra *"'], [], r'#define\s+YY_EXTRA_TYPE\s+struct verif_extra \*', 'the type of yyextra'),
+    ('prefix',      ['prefix="verif"'], [], r'\bveriflex\b', 'the prefix of the external names'),
+    ('-D',          [], ['-DVERIF_SYM=4242'], r'#define\s+VERIF_SYM\s+4242\b', 'a preprocessor definition requested on the command line'),
+    ('-D-plain',    [], ['-DVERIF_FLAG'], r'#define\s+VERIF_FLAG\b', 'a preprocessor definition without a value'),
+    ('yyclass',     ['c++', 'yyclass="VerifLexer"'], [], r'\bVerifLexer::yylex\b', 'the class whose yylex is generated'),
+]
+
+def strip_comments(t):
+    return re.sub(r'/\*.*?\*/', ' ', t, flags=re.S)
+
+def r5(ctx):
+    """R5: an option that carries a value reaches the generated code: instantiate one scanner per option with a marker value
+    and require the marker in the code (comments removed) in the documented syntactic position."""
+    rep = ctx.rep
+    vs = []
+    for name, opts, flags, rx, what in VALUE_OPTIONS:
+        be = 'cxx' if 'c++' in opts else 'r' if 'reentrant' in opts else 'nr'
+        o2 = [o for o in opts if o not in ('c++', 'reentrant')] + ['noyywrap']
+        body = '%{\nstruct verif_extra { int n; };\nstatic void verif_pre(void){} static void verif_post(void){} static void verif_init(void){}\n%}\n'
+        if be == 'cxx': body = '%{\nclass VerifLexer : public yyFlexLexer { public: int yylex(); };\n%}\n'
+        head = {'cxx': '%option c++\n', 'r': '%option reentrant\n', 'nr': ''}[be]
+        spec = head + ''.join('%%option %s\n' % o for o in o2) + body + '%%\na { }\n%%\n'
+        vs.append((variants.Variant('valopt_%s' % name.strip('-').replace('-', '_') , be, (), o2, flags=flags, raw_spec=spec), name, rx, what))
+    variants.instantiate(ctx.art, [v for v, *_ in vs], 'valopt')
+    n = 0
+    for v, name, rx, what in vs:
+        n += 1
+        key = 'C19.R5:option:%s' % name
+        if v.crashed or v.refused or v.src is None:
+            rep.fail('C19.R5', key + ':refused', v.name, 'flex did not accept the documented option %s: %s' % (name, v.stderr.strip().split('\n')[-1][:120]), replay_input=v.spec(), variant=v.describe()); continue
+        code = strip_comments(open(v.src, errors='replace').read())
+        if re.search(rx, code):
+            rep.ok('C19.R5', 'option %s: %s appears in the generated code' % (name, what))
+        else:
+            rep.fail('C19.R5', key + ':no-effect', v.name, 'option %s was accepted but %s does not appear in the generated code (pattern %s not found outside comments)' % (name, what, rx),
+                     replay_input=v.spec() + ' flags: ' + ' '.join(v.flags), variant=v.describe())
+    return n
+
 def run(ctx):
     rep = ctx.rep
     sp = lex.parse_spec(ctx.art.source('scan.l'))
@@ -557,12 +604,14 @@ def run(ctx):
     plumbing = r2(ctx)
     n3 = r3(ctx, sp, en, tbl, sw)
     n4 = r4(ctx) + r4_structure(ctx) + r4_single(ctx)
+    n5 = r5(ctx)
     rep.setcount('flexopt_enumerators', len(en)); rep.setcount('flexopts_entries', len(tbl))
     rep.setcount('plumbing_symbols', len(plumbing)); rep.setcount('cli_vs_option_pairs', n3)
     rep.floor('C19.R1', 100, '94 enumerators + 14 %option tokens')
     rep.floor('C19.R2', 150, '>=80 option fields + >=100 plumbing symbols')
     rep.floor('C19.R3', 55, 'options that exist in both spellings')
     rep.floor('C19.R4', 25, 'noyy* options in the nr/r variants')
+    rep.floor('C19.R5', 12, 'options that carry a value')
     rep.undecided += ['the observable run-time effect of each option (value-level)', 'documentation agreement of option descriptions',
                       'options that exist in only one spelling are compared with nothing']
     rep.assumptions += ['the region evaluator covers the straight-line/branching shapes of today\'s option actions; an action it cannot evaluate is listed in notes, not judged']
